@@ -644,18 +644,22 @@ def build_document(rng, version_name, enc, unencodable=False):
             elif kind == "ellipse":
                 e = lay.add_ellipse(_pt(rng), major_axis=(abs(_num(rng)) + 1, _num(rng), 0), ratio=0.5, dxfattribs=attribs)
             elif kind == "spline":
-                e = lay.add_spline([_pt(rng) for _ in range(rng.randint(3, 6))], dxfattribs=attribs)
+                # fit points of moderate size (the CAD fit point interpolation is C13's subject)
+                mp = lambda: (rng.uniform(-100, 100), rng.uniform(-100, 100), rng.choice([0.0, 1.5]))  # noqa: E731
+                e = lay.add_spline([mp() for _ in range(rng.randint(3, 6))], dxfattribs=attribs)
                 if rng.random() < 0.5:
-                    e = lay.add_open_spline([_pt(rng) for _ in range(5)], degree=3, dxfattribs=attribs)
+                    e = lay.add_open_spline([mp() for _ in range(5)], degree=3, dxfattribs=attribs)
             elif kind == "hatch":
                 e = lay.add_hatch(color=rng.randint(1, 6), dxfattribs={"layer": attribs["layer"]})
-                e.paths.add_polyline_path([(_num(rng), _num(rng), _num(rng)) for _ in range(4)], is_closed=True)
+                # moderate size: r12export renders pattern lines (their number grows with area / scale)
+                e.paths.add_polyline_path([(rng.uniform(-50, 50), rng.uniform(-50, 50), rng.choice([0, 0.5, -1.25]))
+                                           for _ in range(4)], is_closed=True)
                 if rng.random() < 0.5:
                     ep = e.paths.add_edge_path()
-                    ep.add_line(_pt(rng, 2), _pt(rng, 2))
-                    ep.add_arc(_pt(rng, 2), 1.5, 0, 90)
+                    ep.add_line((rng.uniform(-9, 9), 0.125), (rng.uniform(-9, 9), 7.5))
+                    ep.add_arc((rng.uniform(-9, 9), 1), 1.5, 0, 90)
                 if rng.random() < 0.4:
-                    e.set_pattern_fill("ANSI31", scale=abs(_num(rng)) + 0.1)
+                    e.set_pattern_fill("ANSI31", scale=rng.choice([1.0, 2.5, 4.0]))
                 elif ver >= "AC1018" and rng.random() < 0.4:
                     e.set_gradient((10, 20, 30), (200, 100, 50))
             elif kind == "ray":
@@ -777,24 +781,37 @@ def diff(a, b):
     return None
 
 
-def source_diff(src_entities, got_entities):
+def _same(a, b) -> bool:
+    """attribute values of source and reader: numbers by value (1.0 == 1, -0.0 == 0), the rest canonically"""
+    if isinstance(a, (int, float)) and isinstance(b, (int, float)) and not isinstance(a, bool) and not isinstance(b, bool):
+        return a == b
+    return _canon(a) == _canon(b)
+
+
+def _not_written(e) -> bool:
+    """entities Drawing.write leaves out on purpose: LWPOLYLINE / MLINE without vertices (C04's subject)"""
+    return e.dxftype() in ("LWPOLYLINE", "MLINE") and len(e) == 0
+
+
+def source_diff(src_entities, got_entities, with_handle=True):
     """what the source document defines must arrive (defaults may be added by the writer: C01's subject)"""
+    src_entities = [e for e in src_entities if not _not_written(e)]
     if len(src_entities) != len(got_entities):
-        return "len", f"source has {len(src_entities)} entities, reader {len(got_entities)}"
+        return "len", f"source has {[e.dxftype() for e in src_entities][:12]}, reader {[e.dxftype() for e in got_entities][:12]}"
     for i, (s, g) in enumerate(zip(src_entities, got_entities)):
         if s.dxftype() != g.dxftype():
             return "type", f"#{i} {s.dxftype()} vs {g.dxftype()}"
         for k, v in s.dxf.all_existing_dxf_attribs().items():
-            if k in DROP_ATTRIBS:
+            if k in DROP_ATTRIBS or (k == "handle" and not with_handle):
                 continue
             try:
                 gv = g.dxf.get(k, g.dxf.dxf_default_value(k))
             except Exception:  # noqa
                 gv = g.dxf.get(k)
-            if _canon(v) != _canon(gv):
+            if not _same(v, gv):
                 return "attrib:" + k, f"#{i} {s.dxftype()}.{k}: source {v!r} reader {gv!r}"
         ss, gs = getattr(s, "_sub_entities", []), getattr(g, "_sub_entities", [])
-        d = source_diff(list(ss), list(gs))
+        d = source_diff(list(ss), list(gs), with_handle)
         if d:
             return "sub-" + d[0], f"#{i} {s.dxftype()} sub-entity " + d[1]
     return None
@@ -883,6 +900,20 @@ def _unicode_only(ref, got) -> bool:
     return norm(tuple(ref)) == norm(tuple(got)) and tuple(ref) != tuple(got)
 
 
+def _last_group_lost(x, got) -> bool:
+    """`got` is `x` without the last group of the section: the last entity, its SEQEND or its last sub-entity"""
+    if not x:
+        return False
+    if diff(x[:-1], got) is None:
+        return True
+    if len(x) != len(got) or diff(x[:-1], got[:-1]) is not None:
+        return False
+    a, b = x[-1], got[-1]
+    if a[0] != b[0] or a[1] != b[1]:
+        return False
+    return diff(list(a[3]), list(b[3])) is None or diff(list(a[3][:-1]), list(b[3])) is None
+
+
 def judge(fails, tag, writer, res, ref_name="readfile"):
     """pairwise agreement of all readers with the reference reader; appends (key, what)"""
     ref = res[ref_name]
@@ -898,26 +929,73 @@ def judge(fails, tag, writer, res, ref_name="readfile"):
         d = diff(ref, got)
         if d is None:
             continue
-        expect = ref
-        reasons = []
         if name in ITER_READERS:
-            nofalsy = [s for s in expect if not _falsy(s)]
-            if len(nofalsy) != len(expect) and diff(nofalsy, got) is None:
-                typ = next(s[0] for s in expect if _falsy(s))
-                fails.append((f"iterdxf/falsy-entity-dropped/{typ}", f"{tag}: {name} does not yield the empty {typ} (bool(entity) is False)"))
+            nofalsy = [s for s in ref if not _falsy(s)]
+            has_falsy = len(nofalsy) != len(ref)
+            falsy_type = next((s[0] for s in ref if _falsy(s)), "")
+            if has_falsy and diff(nofalsy, got) is None:
+                fails.append((f"iterdxf/falsy-entity-dropped/{falsy_type}",
+                              f"{tag}: {name} does not yield the empty {falsy_type} (bool(entity) is False)"))
                 continue
             if name == "iterdxf.single_pass_modelspace":
-                if diff(expect[:-1], got) is None:
-                    fails.append(("single-pass/last-entity-lost", f"{tag}: single_pass_modelspace lost the last entity {expect[-1][0]} of the ENTITIES section"))
+                if _last_group_lost(ref, got):
+                    fails.append(("single-pass/last-entity-lost",
+                                  f"{tag}: single_pass_modelspace lost the last group of the ENTITIES section ({d[1]})"))
                     continue
-                if nofalsy and diff(nofalsy[:-1], got) is None or (len(nofalsy) != len(expect) and diff([s for s in expect[:-1] if not _falsy(s)], got) is None):
-                    fails.append(("single-pass/last-entity-lost", f"{tag}: single_pass_modelspace lost the last entity of the ENTITIES section"))
-                    fails.append(("iterdxf/falsy-entity-dropped/POLYLINE", f"{tag}: {name} does not yield an empty entity"))
+                if has_falsy and _last_group_lost(nofalsy, got):
+                    fails.append(("single-pass/last-entity-lost",
+                                  f"{tag}: single_pass_modelspace lost the last group of the ENTITIES section ({d[1]})"))
+                    fails.append((f"iterdxf/falsy-entity-dropped/{falsy_type}", f"{tag}: {name} does not yield the empty {falsy_type}"))
                     continue
         if name.startswith("recover") and _unicode_only(ref, got):
             fails.append(("recover/dxf-unicode-decoded", f"{tag}: {name} decodes \\U+XXXX, {ref_name} keeps it: {d[1]}"))
             continue
         fails.append((f"{writer}/{name}/{d[0]}", f"{tag}: {name} vs {ref_name}: {d[1]}"))
+
+
+def file_problems(path, enc="cp1252"):
+    """the writer side of the property (`FileWF'` of the Lean model, evaluated on the real output with the harness-owned
+    parser): sections bracketed, one ENTITIES section, no comments, linked structures complete"""
+    import dxfparse
+
+    with open(path, "rb") as fp:
+        text = fp.read().decode(enc, "surrogateescape").replace("\r\n", "\n")
+    tags = dxfparse.parse_ascii(text)
+    sections, problems = dxfparse.split_file(tags)
+    problems = list(problems)
+    names = [n for n, _ in sections]
+    if names.count("ENTITIES") != 1:
+        problems.append(f"{names.count('ENTITIES')} ENTITIES sections")
+    if any(c == 999 for c, _ in tags):
+        problems.append("comment tag")
+    if any(c > 1071 for c, _ in tags):
+        problems.append("group code > 1071")
+    for name, recs in sections:
+        if name not in ("ENTITIES", "BLOCKS"):
+            continue
+        open_main = None
+        for r in recs:
+            typ = r[0][1]
+            if typ == "<SECTION-TAGS>":
+                problems.append(f"tags between (2, {name}) and the first entity")
+                continue
+            if typ in ("BLOCK", "ENDBLK") and open_main:
+                problems.append(f"{open_main[0]} not closed by SEQEND (next entity {typ})")
+                open_main = None
+            if open_main:
+                if typ == "SEQEND":
+                    open_main = None
+                elif typ != open_main[1]:
+                    problems.append(f"{open_main[0]} not closed by SEQEND (next entity {typ})")
+                    open_main = None
+                continue
+            if typ == "POLYLINE":
+                open_main = ("POLYLINE", "VERTEX")
+            elif typ == "INSERT" and any(c == 66 and str(v).strip() not in ("0", "") for c, v in r):
+                open_main = ("INSERT", "ATTRIB")
+        if open_main:
+            problems.append(f"{open_main[0]} not closed by SEQEND (end of section)")
+    return problems
 
 
 def _doc_case(args):
@@ -986,13 +1064,16 @@ def run_writers(doc, ver, tag, base, stats):
         fails.append((f"write-asc/raised/{type(ex).__name__}", f"{tag}: saveas raised {type(ex).__name__}: {str(ex)[:100]}"))
         return fails
     src = [e for e in doc.modelspace() if e.dxftype() in iterdxf.SUPPORTED_TYPES]
+    probs = file_problems(pa)
+    if probs:
+        fails.append((f"asc/not-wellformed/{probs[0][:30]}", f"{tag}: Drawing.write output: {probs[0]}"))
     res = ascii_readers(pa, ver, with_handle)
     judge(fails, tag, "asc", res)
     ref = res["readfile"]
     stats["entities"] = len(ref) if not isinstance(ref, str) else -1
     if not isinstance(ref, str):
         got = [e for e in ezdxf.readfile(pa).modelspace() if e.dxftype() in iterdxf.SUPPORTED_TYPES]
-        d = source_diff(src, got)
+        d = source_diff(src, got, with_handle)
         if d:
             fails.append((f"asc/source/{d[0]}", f"{tag}: source document vs readfile: {d[1]}"))
     # --- the same content with CRLF line ends (what saveas produces on Windows)
@@ -1045,7 +1126,15 @@ def run_writers(doc, ver, tag, base, stats):
         src_e = res["iterdxf.opendxf"]
         if not isinstance(src_e, str):
             res_e["source(opendxf)"] = src_e
-            judge(fails, tag + " iterdxf-export", "export", res_e, "source(opendxf)")
+            fe = []
+            judge(fe, tag + " iterdxf-export", "export", res_e, "source(opendxf)")
+            linked = any(s_[3] for s_ in src_e)
+            for k, w in fe:
+                # sub-entities written twice: they come back as additional stand-alone VERTEX/ATTRIB/SEQEND entities
+                if linked and k.startswith("export/") and k.endswith("/len"):
+                    fails.append(("export/sub-entities-written-twice", w))
+                else:
+                    fails.append((k, w))
     except _Timeout:
         raise
     except Exception as ex2:  # noqa
@@ -1055,9 +1144,18 @@ def run_writers(doc, ver, tag, base, stats):
     if ver != "AC1009":
         pr = base + "-r.dxf"
         try:
-            r12export.saveas(doc, pr)
-            res_r = ascii_readers(pr, "AC1009", False)
-            judge(fails, tag + " r12export", "r12export", res_r)
+            signal.alarm(20)
+            try:
+                r12export.saveas(doc, pr)
+            finally:
+                signal.alarm(0)
+            probs = file_problems(pr)
+            if probs:
+                kind = "missing-seqend" if "SEQEND" in probs[0] else "structure"
+                fails.append((f"r12export/not-wellformed/{kind}", f"{tag}: r12export output: {probs[0]}"))
+            else:
+                res_r = ascii_readers(pr, "AC1009", False)
+                judge(fails, tag + " r12export", "r12export", res_r)
         except _Timeout:
             raise
         except Exception as ex3:  # noqa
@@ -1083,6 +1181,19 @@ def oracle(ctx):
             ctx.hist("O1 documents", "k:" + k)
         for key, what in fails:
             ctx.fail(key, what, replay)
+    # O2: r12writer call sequences, ASCII and binary, against the input rounded to 6 decimals
+    n2 = ctx.n(400, 8000)
+    with _pool(12) as pool:
+        results = pool.map(_r12_case, [(ctx.seed, i, tmp) for i in range(n2)], chunksize=10)
+    for kinds, fails, replay in results:
+        ctx.count("O2 r12writer", (replay["idx"], tuple(kinds)), True)
+        for k in kinds:
+            ctx.hist("O2 r12writer", k)
+        for key, what in fails:
+            ctx.fail(key, what, replay)
+    for key, what in r12_probes():
+        ctx.count("O2 r12writer", key, True)
+        ctx.fail(key, what, {"op": "r12-probe"})
 
 
 def replay(ctx, rep):
@@ -1096,3 +1207,295 @@ def replay(ctx, rep):
             if f["key"] in keys:
                 bad.append(f["key"])
     return (not bad, "; ".join(bad) or "recorded failing inputs pass now")
+
+
+# ------------------------------------------------------------------ O2: r12writer call sequences
+def rnd6(x):
+    """round(x, 6) computed independently: exact binary value, half-even at the 6th decimal"""
+    from decimal import ROUND_HALF_EVEN, Decimal
+
+    if isinstance(x, int):
+        return float(x)
+    return float(Decimal(x).quantize(Decimal("0.000001"), rounding=ROUND_HALF_EVEN))
+
+
+def _c(rng):
+    x = rng.random()
+    if x < 0.2:
+        return rng.randint(-100, 100)
+    if x < 0.4:
+        return rng.randint(-10 ** 7, 10 ** 7) / 10 ** 7 + rng.choice([0, 5e-7, 0.5e-6, 1e-9])     # 7th decimal: rounding needed
+    if x < 0.55:
+        return rng.choice([0.0000005, 0.0000015, 0.0000025, 2.5000005, -0.0000005, 1.0000004999999, 0.1 + 0.2, -0.0,
+                           123456789.1234567, 1e-7, 4.35, 2.675e-5, 1e15 + 0.3, 0.5e-6, 8.5e-7])
+    return rng.uniform(-1000, 1000)
+
+
+def _v(rng, dim):
+    return tuple(_c(rng) for _ in range(dim))
+
+
+def r3(v):
+    """expected location of a written vertex: rounded components, missing z = 0"""
+    t = tuple(rnd6(c) for c in v)
+    return t + (0.0,) * (3 - len(t))
+
+
+R12_TEXTS = ["plain", "with space ", "äöü ß € ©", "semi;colon", "%%c", "", "x" * 200, 'q"', "back\\slash"]
+
+
+def gen_r12_calls(rng, fixed):
+    """-> list of (method, kwargs, expected) ; expected = (dxftype, attribs, vertices or None).
+    Line types and text styles other than the defaults only together with fixed_tables=True (they are defined there);
+    without tables recover's audit resets the undefined references, rightly."""
+    calls = []
+    for _ in range(rng.choice([1, 2, 4, 8, 12])):
+        m = rng.choice(["line", "circle", "arc", "point", "face", "solid", "polyline", "polyline_2d", "polyface", "polymesh", "text"])
+        common = {}
+        exp_c = {"layer": "0"}
+        if rng.random() < 0.5:
+            common["layer"] = rng.choice(["L1", "LAYER 2", "é"])
+            exp_c["layer"] = common["layer"]
+        if rng.random() < 0.4:
+            common["color"] = rng.choice([0, 1, 7, 255, 256])
+            exp_c["color"] = common["color"]
+        if fixed and m not in ("text",) and rng.random() < 0.3:
+            common["linetype"] = rng.choice(["DASHED", "CONTINUOUS"])
+            exp_c["linetype"] = common["linetype"]
+        if m == "line":
+            d = rng.choice([2, 3])
+            a, b = _v(rng, d), _v(rng, d)
+            calls.append(("add_line", dict(start=a, end=b, **common), ("LINE", dict(exp_c, start=r3(a), end=r3(b)), None)))
+        elif m == "circle":
+            c, r = _v(rng, rng.choice([2, 3])), abs(_c(rng)) + 0.001
+            calls.append(("add_circle", dict(center=c, radius=r, **common), ("CIRCLE", dict(exp_c, center=r3(c), radius=rnd6(r)), None)))
+        elif m == "arc":
+            c, r, s, e = _v(rng, 2), abs(_c(rng)) + 0.001, _c(rng), _c(rng)
+            calls.append(("add_arc", dict(center=c, radius=r, start=s, end=e, **common),
+                          ("ARC", dict(exp_c, center=r3(c), radius=rnd6(r), start_angle=rnd6(s), end_angle=rnd6(e)), None)))
+        elif m == "point":
+            p = _v(rng, rng.choice([2, 3]))
+            calls.append(("add_point", dict(location=p, **common), ("POINT", dict(exp_c, location=r3(p)), None)))
+        elif m in ("face", "solid"):
+            n = rng.choice([3, 4])
+            vs = [_v(rng, 3 if m == "face" else 2) for _ in range(n)]
+            ex = dict(exp_c)
+            full = vs + [vs[-1]] if n == 3 else vs
+            for i, v in enumerate(full):
+                ex["vtx%d" % i] = r3(v)
+            kw = dict(vertices=vs, **common)
+            if m == "face":
+                inv = rng.choice([0, 0, 5, 15])
+                kw["invisible"] = inv
+                if inv:
+                    ex["invisible_edges"] = inv
+            calls.append(("add_3dface" if m == "face" else "add_solid", kw, ("3DFACE" if m == "face" else "SOLID", ex, None)))
+        elif m == "polyline":
+            d = rng.choice([2, 3])
+            vs = [_v(rng, d) for _ in range(rng.randint(1, 5))]
+            closed = rng.random() < 0.5
+            vex = [dict(layer=exp_c["layer"], flags=32, location=r3(v)) for v in vs]
+            calls.append(("add_polyline", dict(vertices=vs, closed=closed, **common),
+                          ("POLYLINE", dict(exp_c, flags=8 + int(closed)), vex)))
+        elif m == "polyline_2d":
+            fmt = rng.choice(["xy", "xyb", "xyseb", "xybse", "xys", "xye"])
+            pts, vex = [], []
+            for _ in range(rng.randint(1, 5)):
+                vals = {"x": _c(rng), "y": _c(rng), "s": rng.choice([0, 0.5, 0.1234567]), "e": rng.choice([0, 0.25]),
+                        "b": rng.choice([0, 1, -0.4142135623730951])}
+                pts.append(tuple(vals[c] for c in fmt))
+                ex = dict(layer=exp_c["layer"], flags=0, location=(float(vals["x"]), float(vals["y"]), 0.0))   # NOT rounded
+                for c, name in (("s", "start_width"), ("e", "end_width"), ("b", "bulge")):
+                    if c in fmt and vals[c] != 0:
+                        ex[name] = float(vals[c])
+                vex.append(ex)
+            closed = rng.random() < 0.5
+            sw, ew = rng.choice([0, 0.5]), rng.choice([0, 0.75])
+            ex = dict(exp_c, flags=int(closed))
+            if sw:
+                ex["default_start_width"] = sw
+            if ew:
+                ex["default_end_width"] = ew
+            calls.append(("add_polyline_2d", dict(points=pts, format=fmt, closed=closed, start_width=sw, end_width=ew, **common),
+                          ("POLYLINE", ex, vex)))
+        elif m == "polyface":
+            vs = [_v(rng, 3) for _ in range(rng.randint(3, 6))]
+            faces = [tuple(rng.sample(range(len(vs)), rng.choice([3, 4]) if len(vs) > 3 else 3)) for _ in range(rng.randint(1, 3))]
+            cm = {k: v for k, v in common.items()}
+            vex = [dict(layer=exp_c["layer"], flags=192, location=r3(v)) for v in vs]
+            for f in faces:
+                fx = dict(layer=exp_c["layer"], flags=128, location=(0.0, 0.0, 0.0))
+                if "color" in exp_c:
+                    fx["color"] = exp_c["color"]
+                for i, ix in enumerate(f):
+                    fx["vtx%d" % i] = ix + 1
+                vex.append(fx)
+            calls.append(("add_polyface", dict(vertices=vs, faces=faces, **cm),
+                          ("POLYLINE", dict(exp_c, flags=64, m_count=len(vs), n_count=len(faces)), vex)))
+        elif m == "polymesh":
+            mm, nn = rng.choice([(2, 2), (2, 3), (3, 2)])
+            vs = [_v(rng, 3) for _ in range(mm * nn)]
+            cl = (rng.random() < 0.5, rng.random() < 0.5)
+            vex = [dict(layer=exp_c["layer"], flags=64, location=r3(v)) for v in vs]
+            calls.append(("add_polymesh", dict(vertices=vs, size=(mm, nn), closed=cl, **common),
+                          ("POLYLINE", dict(exp_c, flags=16 + int(cl[0]) + 32 * int(cl[1]), m_count=mm, n_count=nn), vex)))
+        else:
+            txt = rng.choice(R12_TEXTS)
+            ins = _v(rng, 2)
+            h, w, rot, obl = abs(_c(rng)) + 0.01, rng.choice([1.0, 0.8, 1.2345678]), rng.choice([0.0, _c(rng)]), rng.choice([0.0, 15.0000005])
+            align = rng.choice(["LEFT", "CENTER", "MIDDLE_CENTER", "top_right", "BOTTOM_LEFT"])
+            style = rng.choice(["STANDARD", "OpenSans"]) if fixed else "STANDARD"
+            from ezdxf.addons.r12writer import TEXT_ALIGN_FLAGS
+
+            ha, va = TEXT_ALIGN_FLAGS[align.upper()]
+            ex = {"layer": exp_c["layer"], "text": txt, "insert": r3(ins), "height": rnd6(h), "align_point": r3(ins)}
+            if "color" in exp_c:
+                ex["color"] = exp_c["color"]
+            if w != 1.0:
+                ex["width"] = rnd6(w)
+            if rot != 0.0:
+                ex["rotation"] = rnd6(rot)
+            if obl != 0.0:
+                ex["oblique"] = rnd6(obl)
+            if style != "STANDARD":
+                ex["style"] = style
+            ex["halign"], ex["valign"] = ha, va
+            kw = dict(text=txt, insert=ins, height=h, width=w, align=align, rotation=rot, oblique=obl, style=style)
+            kw.update({k: v for k, v in common.items() if k != "linetype"})
+            calls.append(("add_text", kw, ("TEXT", ex, None)))
+    return calls
+
+
+def _check_r12_entity(e, exp):
+    typ, attribs, verts = exp
+    if e.dxftype() != typ:
+        return f"type {e.dxftype()} instead of {typ}"
+    for k, v in attribs.items():
+        got = e.dxf.get(k, e.dxf.dxf_default_value(k) if e.dxf.is_supported(k) else None)
+        if isinstance(v, tuple):
+            from ezdxf.math import Vec3
+
+            g = Vec3(got) if got is not None else None
+            if g is None or (g.x, g.y, g.z) != v:
+                return f"{typ}.{k} = {got!r}, expected {v!r}"
+        elif isinstance(v, str):
+            if got != v:
+                return f"{typ}.{k} = {got!r}, expected {v!r}"
+        elif got is None or float(got) != float(v):
+            return f"{typ}.{k} = {got!r}, expected {v!r}"
+    if verts is not None:
+        subs = list(getattr(e, "_sub_entities", []))
+        if len(subs) != len(verts):
+            return f"{typ} has {len(subs)} vertices, expected {len(verts)}"
+        for i, (s, vx) in enumerate(zip(subs, verts)):
+            d = _check_r12_entity(s, ("VERTEX", vx, None))
+            if d:
+                return f"vertex {i}: {d}"
+    return None
+
+
+def _r12_case(args):
+    seed, idx, tmp = args
+    _quiet()
+    signal.signal(signal.SIGALRM, _on_alarm)
+    import ezdxf
+    from ezdxf import recover
+    from ezdxf.addons import iterdxf
+    from ezdxf.addons.r12writer import r12writer
+
+    rng = random.Random(f"{seed}/r12/{idx}")
+    fixed = idx % 3 == 0
+    calls = gen_r12_calls(rng, fixed)
+    fails = []
+    kinds = [c[0] for c in calls]
+    base = os.path.join(tmp, f"r{os.getpid()}")
+    for fmt in ("asc", "bin"):
+        path = f"{base}-{fmt}.dxf"
+        tag = f"r12writer#{idx}/{fmt}"
+        try:
+            with r12writer(path, fixed_tables=fixed, fmt=fmt) as w:
+                for name, kw, _ in calls:
+                    getattr(w, name)(**kw)
+        except Exception as ex:  # noqa
+            fails.append((f"r12writer/raised/{type(ex).__name__}", f"{tag}: {kinds} raised {type(ex).__name__}: {ex}"))
+            continue
+        readers = {"readfile": lambda: list(ezdxf.readfile(path).modelspace())}
+        if fmt == "asc":
+            probs = file_problems(path)
+            if probs:
+                fails.append(("r12writer/not-wellformed", f"{tag}: {probs[0]}"))
+            readers["recover.readfile"] = lambda: list(recover.readfile(path)[0].modelspace())
+            readers["iterdxf.modelspace"] = lambda: list(iterdxf.modelspace(path))
+
+            def sp():
+                with open(path, "rb") as fp:
+                    return list(iterdxf.single_pass_modelspace(fp))
+
+            readers["iterdxf.single_pass_modelspace"] = sp
+
+            def od():
+                it = iterdxf.opendxf(path)
+                try:
+                    return list(it.modelspace())
+                finally:
+                    it.close()
+
+            readers["iterdxf.opendxf"] = od
+        for rname, fn in readers.items():
+            signal.alarm(20)
+            try:
+                ents = fn()
+            except _Timeout:
+                fails.append((f"r12writer/{fmt}/{rname}/watchdog", f"{tag}: {rname} did not finish"))
+                continue
+            except Exception as ex:  # noqa
+                fails.append((f"r12writer/{fmt}/{rname}/raised/{type(ex).__name__}", f"{tag}: {rname} raised {type(ex).__name__}: {str(ex)[:100]}"))
+                continue
+            finally:
+                signal.alarm(0)
+            exp = [c[2] for c in calls]
+            if rname == "iterdxf.single_pass_modelspace" and len(ents) == len(exp) - 1:
+                # the last call wrote one entity (or one POLYLINE with SEQEND as the last group)
+                bad = next((d for d in (_check_r12_entity(e, x) for e, x in zip(ents, exp)) if d), None)
+                if bad is None:
+                    fails.append(("single-pass/last-entity-lost", f"{tag}: single_pass_modelspace lost the last entity {exp[-1][0]}"))
+                    continue
+            if len(ents) != len(exp):
+                fails.append((f"r12writer/{fmt}/{rname}/len", f"{tag}: {rname} delivers {[e.dxftype() for e in ents]}, written {[x[0] for x in exp]}"))
+                continue
+            for i, (e, x) in enumerate(zip(ents, exp)):
+                d = _check_r12_entity(e, x)
+                if d:
+                    fails.append((f"r12writer/{fmt}/{rname}/value/{calls[i][0]}", f"{tag}: {rname} entity {i} ({calls[i][0]}): {d}"))
+                    break
+    return kinds, fails, {"op": "r12", "seed": seed, "idx": idx}
+
+
+def r12_probes():
+    """documented call variants of add_polyline_2d"""
+    import io
+
+    from ezdxf.addons.r12writer import r12writer
+
+    out = []
+    for fmt, pts in (("vb", [((1.0, 2.0), 0.5)]), ("v", [((1.0, 2.0),)]), ("yx", [(2.0, 1.0)]), ("bxy", [(0.5, 1.0, 2.0)])):
+        s = io.StringIO()
+        try:
+            with r12writer(s) as w:
+                w.add_polyline_2d(pts, format=fmt)
+        except Exception as ex:  # noqa
+            out.append((f"r12writer/polyline_2d-format/{fmt}/raised/{type(ex).__name__}",
+                        f"add_polyline_2d(points={pts}, format={fmt!r}) raised {type(ex).__name__}: {ex}"))
+            continue
+        import ezdxf
+
+        try:
+            doc = ezdxf.read(io.StringIO(s.getvalue()))
+            pl = doc.modelspace()[0]
+            loc = pl.vertices[0].dxf.location
+            if (loc.x, loc.y) != (1.0, 2.0):
+                out.append((f"r12writer/polyline_2d-format/{fmt}/value", f"format {fmt!r}: vertex read back as {loc}"))
+        except Exception as ex:  # noqa
+            out.append((f"r12writer/polyline_2d-format/{fmt}/unreadable/{type(ex).__name__}",
+                        f"add_polyline_2d(points={pts}, format={fmt!r}) writes a file ezdxf.read rejects: {type(ex).__name__}: {ex}"))
+    return out
